@@ -39,6 +39,14 @@ def _mods():
     return _STATE
 
 
+def find_fn(name):
+    m = _mods()
+    for k in ("core", "nn", "special"):
+        if hasattr(m[k], name):
+            return getattr(m[k], name)
+    raise AttributeError(name)
+
+
 class Seq(list):
     """Marks an argument that is a Python sequence of tensors (Tensor[] parameter)."""
 
